@@ -325,6 +325,21 @@ def run_reuse(case):
 
 
 def run_case(case):
+    res = run_one(case)
+    why = str(res.get("why", ""))
+    if res.get("verdict") == "violated" and case.get("dt") == "complex64" and (
+            "nan" in why or "inf" in why):
+        # possible float32 overflow (un-normalised kernel weights applied several times):
+        # decide the same tree in double precision
+        r64 = run_one(dict(case, dt="complex128"))
+        if r64.get("verdict") == "held":
+            return {"verdict": "inconclusive", "sig": "c64-overflow", "nontrivial": False,
+                    "why": "single-precision overflow (holds in double precision): " + why[:120]}
+        return r64
+    return res
+
+
+def run_one(case):
     rng = rng_for(case)
     if case["gen"] == "reuse":
         return run_reuse(case)
